@@ -107,7 +107,7 @@ func (s *Sess) CheckWorld() {
 			s.fail("model.mask", "Mask(%v) has %d bits, model has %d components", e, mask.TotalBitsSet(), len(me.Comps))
 			return
 		}
-		if got := s.nums(w.Ids(e)); !eqInts(got, me.IDs()) {
+		if got := s.nums(scribbled(w.Ids(e))); !eqInts(got, me.IDs()) {
 			s.fail("model.ids", "Ids(%v)=%v, model says %v", e, got, me.IDs())
 			return
 		}
@@ -195,7 +195,7 @@ func (s *Sess) sweep(probe []int) {
 			q.Close()
 			return
 		}
-		if got := s.nums(q.Ids()); !eqInts(got, me.IDs()) {
+		if got := s.nums(scribbled(q.Ids())); !eqInts(got, me.IDs()) {
 			s.fail("sweep.ids", "Query.Ids at %v = %v, model says %v", e, got, me.IDs())
 			q.Close()
 			return
@@ -311,7 +311,7 @@ func (s *Sess) QueryCheck(f ecs.Filter, spec *FSpec, mode int) {
 			q.Close()
 			return
 		}
-		if got := s.nums(q.Ids()); !eqInts(got, me.IDs()) {
+		if got := s.nums(scribbled(q.Ids())); !eqInts(got, me.IDs()) {
 			s.fail("query.ids", "query %s at %v: Ids %v, model %v", spec, e, got, me.IDs())
 			q.Close()
 			return
@@ -622,4 +622,29 @@ func (s *Sess) queryAcrossCacheOps(own int, f ecs.Filter, spec *FSpec, mode int)
 		return
 	}
 	s.Cov.N["queries_open_across_cache_calls"]++
+}
+
+// scribbled returns a copy of a slice that a library call returned to the caller, and overwrites the returned slice
+// itself (reversed, first element duplicated): World.Ids and Query.Ids are documented as safe to manipulate, and
+// ComponentIDs/ResourceIDs hand out fresh lists. Whatever the library keeps must not be affected.
+func scribbled(xs []ecs.ID) []ecs.ID {
+	cp := append([]ecs.ID{}, xs...)
+	for i, j := 0, len(xs)-1; i < j; i, j = i+1, j-1 {
+		xs[i], xs[j] = xs[j], xs[i]
+	}
+	if len(xs) > 1 {
+		xs[len(xs)-1] = xs[0]
+	}
+	return cp
+}
+
+func scribbledRes(xs []ecs.ResID) []ecs.ResID {
+	cp := append([]ecs.ResID{}, xs...)
+	for i, j := 0, len(xs)-1; i < j; i, j = i+1, j-1 {
+		xs[i], xs[j] = xs[j], xs[i]
+	}
+	if len(xs) > 1 {
+		xs[len(xs)-1] = xs[0]
+	}
+	return cp
 }
